@@ -739,6 +739,7 @@ class SVG:
         defs = etree.Element(f"{{{svgns()}}}defs", nsmap=self.svg_root.nsmap)
         self.svg_root.insert(0, defs)
 
+        source_gradients = []
         for context in to_process:
             if "clipPath" in context.path:
                 _safe_remove(context.element)
@@ -811,7 +812,7 @@ class SVG:
                 _safe_remove(el)
                 self._add_to_defs(defs, el)
                 self._apply_gradient_template(el)
-                self._apply_gradient_translation(el)
+                source_gradients.append(el)
 
             elif _is_defs(el.tag):
                 # any children were already processed
@@ -822,6 +823,11 @@ class SVG:
 
             elif _is_group(el.tag):
                 _try_remove_group(el)
+
+        # round the source gradients only now: transformed copies must not be
+        # derived from already rounded numbers
+        for el in source_gradients:
+            self._apply_gradient_translation(el)
 
         # https://github.com/googlefonts/nanoemoji/issues/275
         _del_attrs(self.svg_root, *_INHERITABLE_ATTRIB)
